@@ -361,8 +361,10 @@ def cfg_C18(tier, rng):
         if n > 2:
             ats.add(r.randint(1, n - 2))
         # (some snapshots are taken of interpreters that ignore their contracts: the copy must ignore them too)
+        # ... and a third of them of interpreters whose SimulatedClock is running in real-time mode (start()ed)
         return [dict(variant='api', fork=dict(at=a, mode=('pickle', 'deepcopy')[(a + n + i) % 2]),
-                     **({'ignore_contract': True} if (ci + a) % 4 == 0 else {}))
+                     **({'ignore_contract': True} if (ci + a) % 4 == 0 else {}),
+                     **({'running': True} if (ci + a + n) % 3 == 0 else {}))
                 for i, a in enumerate(sorted(ats))]
     return [dict(name='fork', charts=charts,
                  consts=dict(MaxQ=1, MaxClk=2, Delays={0, 1}, Advances={1}, MaxLevel=5 if tier == QUICK else 6),
